@@ -53,6 +53,26 @@ CHECKS = {
             "Every refusal kind of the property on generated dictionaries (all access types, numeric types x payload lengths 0..9, expedited and segmented, before/between/after successful transfers) must yield exactly one abort frame with an accepted CiA 301 code and the transfer's multiplexer, leave data_store deep-equal and call no write callback; the real client must raise SdoAbortedError with exactly the code on the wire, for documented, boundary and random 32-bit codes at every step of all six transfer kinds, and must not continue an aborted transfer.",
             "Accepted code sets are listed in the check; the multiplexer of an abort answering ccs=7 is not judged.",
             "DESIGN.md section 4, C06"),
+    "C10": ("exploration",
+            "operation histories on a real Network compared step by step with a reference multimap (invocation log of instrumented callbacks, node handlers judged by observable effects); exhaustive sweep of all 2048 standard ids for frame format and scanner",
+            "Random histories of subscribe / unsubscribe / node add, replace, remove / received frames (via notify and via the listener with error and remote flags, timestamps incl. 0.0) must invoke exactly the callbacks subscribed at that moment, once, in order, with the frame's id/data/timestamp; removed nodes must stay untouched and silent; every outgoing frame (send_message, send_periodic) must carry the given id/data/remote flag and use the extended format exactly above 0x7FF; the scanner must list exactly the predefined-connection-set ids.",
+            "Callbacks that (un)subscribe during dispatch and PDO handlers after node removal are outside the property.",
+            "DESIGN.md section 4, C10"),
+    "C11": ("exploration",
+            "four views (sending master, broadcast master, slave, observer on a third network) compared after every step with per-view reference models of the NMT machine; exhaustive command sequences; NMT wire monitor; instrumented-condition waits",
+            "All command sequences up to length 3 (quick) / 4 (thorough) over 7 defined + 4 undefined specifiers x {own, 0, other}, random histories with API commands, valid/invalid state names, all 256 heartbeat bytes and boot-ups: every view must report the state the CiA 301 machine assigns to what that view can hear, every frame on id 0 must be exactly [cs, node], invalid names raise ValueError and send nothing, nothing escapes the receive path; waits return on the matching message and raise NmtError otherwise (also when a message arrived before the wait started).",
+            "No loopback: a network does not hear its own frames, so each view has its own model; time-outs are bounded (30 ms).",
+            "DESIGN.md section 4, C11"),
+    "C16": ("exploration",
+            "reference model of log / active / callback order compared after every frame (external station and real producer, inline and threaded delivery with yield injection); exhaustive description check of all 65536 codes; instrumented-condition waits",
+            "Random EMCY histories with consumer resets: log, active list and callback invocations must equal the model after every frame; producer frames must decode to the same code/register/zero-padded data; every code maps to its CiA 301 class description; wait() returns the next (matching) entry and None on time-out, also when a frame arrived before the wait.",
+            "Descriptions compared by class keyword; undefined high bytes may map to '' or to their 4-bit class text.",
+            "DESIGN.md section 4, C16"),
+    "C17": ("exploration",
+            "live cyclic-task table of the simulated bus compared with a reference model after every API call, on three task flavours (modified in place by reference, kernel copy with modify_data, fixed at start); tick() compares what is transmitted",
+            "Random call sequences over the SYNC producer, two PDO maps, the heartbeat producer (0x1017 written locally and over the bus, NMT state changes from slave and master) and node guarding: after every call there is at most one live task per producer with exactly the expected id, payload, period and remote flag; none after stop / heartbeat time 0; no PDO task is live when disconnect() shuts the bus down.",
+            "The harness never mutates PdoMap.data behind the API; period equality is exact.",
+            "DESIGN.md section 4, C17"),
 }
 
 NOT_BUILT_REASON = "check not built yet in this round (build in progress; see DESIGN.md section 4 for its design)"
